@@ -17,7 +17,7 @@
     a zero-sized added component reads zero whatever the callback was given ([bo_cbval]);
     [vals] must only name added components (otherwise the callback panics after the first table
     has been moved); a selected non-empty table that is not ready makes the call fail before
-    anything is moved, with the lock bit still taken. *)
+    anything is moved; the deferred unlock releases the lock bit ([is_locked s' = false]). *)
 From Ark Require Import Model.Base Model.Mask Model.Pool Model.Util Model.World Model.Run.
 From Ark Require Import Proofs.TableProofs Proofs.MaskProofs Proofs.WF Proofs.StorageA Proofs.StorageBDefs.
 From Ark Require Import Proofs.StorageB_sb1 Proofs.StorageB_sb2 Proofs.StorageB_sb3 Proofs.ViewProofs.
@@ -910,19 +910,30 @@ Definition bo_post_events (add : list nat) (rels : list rel) (moved : list (nat 
         es <- rows_of ntid start len ;;
         fire_rows (fun e eo => fire_add EvAddRelations e om nm eo) es true))).
 
+(** The part of ExchangeBatch that runs under [defer w.unlock(lock)]. *)
+Definition bo_xbody (fi : nat) (brels : list rel) (add rem : list nat) (vals : list (nat * Z)) : MW unit :=
+  tables <- get_batch_tables fi brels ;;
+  bt <- bo_collect add rem [] tables [] false ;;
+  let '(batches, rel_removed) := bt in
+  bo_pre_events rem batches rel_removed ;;;
+  moved <- mapM batches (bo_mbody vals) ;;
+  bo_post_events add [] moved.
+
 Lemma bo_exchange_batch_eq : forall fi brels add rem vals,
   w_exchange_batch fi brels add rem [] vals =
   (check_locked ;;;
    guard (negb (is_nil add && is_nil rem)) ENoComps ;;;
    l <- lockM ;;
-   tables <- get_batch_tables fi brels ;;
-   bt <- bo_collect add rem [] tables [] false ;;
-   let '(batches, rel_removed) := bt in
-   bo_pre_events rem batches rel_removed ;;;
-   moved <- mapM batches (bo_mbody vals) ;;
-   bo_post_events add [] moved ;;;
+   with_deferred_unlock l (bo_xbody fi brels add rem vals) ;;;
    unlockM l).
 Proof. reflexivity. Qed.
+
+Lemma bo_deferred_ok : forall A b (m : MW A) s a s', m s = Ok a s' -> with_deferred_unlock b m s = Ok a s'.
+Proof. intros A b m s a s' H. unfold with_deferred_unlock, on_err. rewrite H. reflexivity. Qed.
+
+Lemma bo_deferred_err : forall A b (m : MW A) s e s', m s = Err e s' ->
+  with_deferred_unlock b m s = Err e (release_bit b s').
+Proof. intros A b m s e s' H. unfold with_deferred_unlock, on_err. rewrite H. reflexivity. Qed.
 
 Lemma bo_pre_events_skip : forall rem bs s, (rem <> [] -> has_obs s EvRemoveComponents = false) ->
   bo_pre_events rem bs false s = Ok tt s.
@@ -965,7 +976,9 @@ Qed.
       handles stay dead; the callback log grows by exactly one entry [101; id; gen] per moved
       entity.
     - Otherwise the call fails before anything is moved (all destinations are computed first):
-      content untouched, invariant kept, but the lock bit taken at the start stays taken. *)
+      content untouched, invariant kept, and the deferred unlock has given the lock bit back: the
+      world is unlocked, its lock is exactly the lock after taking and releasing one bit (same
+      mask as before the call). *)
 Theorem exchange_batch_spec : forall s fi tabs add rem vals,
   St s -> is_locked s = false -> lock_lock (w_lock s) <> None ->
   (add <> [] \/ rem <> []) -> registered s add ->
@@ -986,7 +999,9 @@ Theorem exchange_batch_spec : forall s fi tabs add rem vals,
       w_pool s' = w_pool s /\ frame_user s s'
   | Err _ s' =>
       (exists tid t, In tid tabs /\ nth_error (w_tables s) tid = Some t /\ t_len t <> 0 /\ ~ bo_ready add rem (t_ids t)) /\
-      St s' /\ content_same s s' /\ is_locked s' = true /\ w_log s' = w_log s /\ w_pool s' = w_pool s /\ frame_user s s'
+      St s' /\ content_same s s' /\ is_locked s' = false /\ w_log s' = w_log s /\ w_pool s' = w_pool s /\ frame_user s s' /\
+      lk_mask (w_lock s') = lk_mask (w_lock s) /\
+      (exists b l1, lock_lock (w_lock s) = Some (b, l1) /\ lock_unlock l1 b = Some (w_lock s'))
   end.
 Proof.
   intros s fi tabs add rem vals HSt Hunl Hlock Hnn Hreg Hor Hoa Hvals Hgbt.
@@ -1008,19 +1023,20 @@ Proof.
   { destruct add; [|reflexivity]. destruct rem; [|reflexivity]. destruct Hnn; congruence. }
   rewrite Hg. cbn [guard]. rewrite (bo_bind_ok (m := ret tt) (s := s) eq_refl).
   rewrite (bo_bind_ok (v_lockM_ok s lb l' LL)). fold s0.
-  rewrite (bo_bind_ok Hgbt0).
   destruct (bo_collect add rem [] tabs [] false s0) as [[bs' rr'] s1|er s1] eqn:EC.
-  - rewrite (bo_bind_ok EC). cbv beta iota.
-    destruct HC as (bs & -> & -> & (HSt1 & R1 & D1 & F1) & FA & I1 & I2). cbn [app].
+  - destruct HC as (bs & -> & -> & (HSt1 & R1 & D1 & F1) & FA & I1 & I2). cbn [app] in EC.
     assert (Eagg1 : w_oagg s1 = w_oagg s) by apply D1.
-    rewrite (bo_bind_ok (bo_pre_events_skip rem bs s1 (fun H => eq_trans (bo_has_obs_side s s1 _ Eagg1) (Hor H)))).
     assert (Hreg1 : registered s1 add).
     { intros c Hc. destruct F1 as (-> & _). apply Hreg; exact Hc. }
     destruct (bo_move_loop add rem vals bs s1 HSt1 Hnn FA Hreg1 Hvals) as
       (s2 & mv & Hrun & HSt2 & K2 & Mv & Ot & Dd & (es & Lg & ND & Ines) & Sd & Pl & Fr).
-    rewrite (bo_bind_ok Hrun).
     assert (Eagg2 : w_oagg s2 = w_oagg s) by (destruct Sd as (_ & _ & _ & -> & _); exact Eagg1).
-    rewrite (bo_bind_ok (bo_post_events_skip add mv s2 (fun H => eq_trans (bo_has_obs_side s s2 _ Eagg2) (Hoa H)))).
+    assert (Hbody : bo_xbody fi [] add rem vals s0 = Ok tt s2).
+    { unfold bo_xbody. rewrite (bo_bind_ok Hgbt0), (bo_bind_ok EC). cbv beta iota.
+      rewrite (bo_bind_ok (bo_pre_events_skip rem bs s1 (fun H => eq_trans (bo_has_obs_side s s1 _ Eagg1) (Hor H)))).
+      rewrite (bo_bind_ok Hrun).
+      exact (bo_post_events_skip add mv s2 (fun H => eq_trans (bo_has_obs_side s s2 _ Eagg2) (Hoa H))). }
+    rewrite (bo_bind_ok (bo_deferred_ok _ lb _ _ _ _ Hbody)).
     assert (Elock2 : w_lock s2 = l').
     { destruct Sd as (-> & _). destruct D1 as (-> & _). reflexivity. }
     assert (LU2 : lock_unlock (w_lock s2) lb = Some l'') by (rewrite Elock2; exact LU).
@@ -1064,13 +1080,26 @@ Proof.
     split.
     { change (w_pool s3) with (w_pool s2). rewrite Pl. apply R1. }
     apply (sa_frame_user_trans s s1 s3); [exact F1|]. apply (sa_frame_user_trans s1 s2 s3); [exact Fr|unfold frame_user; repeat split].
-  - rewrite (bo_bind_err EC).
-    destruct HC as ((HSt1 & R1 & D1 & F1) & tid & t & Hin & Ht & Hlen & Hnr).
-    split; [exists tid, t; auto|]. split; [exact HSt1|].
-    split; [exact (same_rows_content s0 s1 (proj1 HSt0) R1)|].
+  - destruct HC as ((HSt1 & R1 & D1 & F1) & tid & t & Hin & Ht & Hlen & Hnr).
+    assert (Hbody : bo_xbody fi [] add rem vals s0 = Err er s1).
+    { unfold bo_xbody. rewrite (bo_bind_ok Hgbt0). exact (bo_bind_err EC). }
+    rewrite (bo_bind_err (bo_deferred_err _ lb _ _ _ _ Hbody)).
+    assert (Elock1 : w_lock s1 = l') by (destruct D1 as (-> & _); reflexivity).
+    assert (Erel : release_bit lb s1 = s1 <| w_lock := l'' |>).
+    { unfold release_bit. rewrite Elock1, LU. reflexivity. }
+    rewrite Erel. set (s1' := s1 <| w_lock := l'' |>).
+    assert (SS1 : storage_same s1 s1') by (unfold storage_same; repeat split).
+    split; [exists tid, t; auto|]. split; [exact (storage_same_St s1 s1' SS1 HSt1)|].
     split.
-    { unfold is_locked. destruct D1 as (-> & _). exact (bo_lock_taken s lb l' LL). }
-    split; [destruct D1 as (_ & -> & _); reflexivity|]. split; [apply R1|exact F1].
+    { intros e. destruct (same_rows_content s0 s1 (proj1 HSt0) R1 e) as (L1 & V1). split; [exact L1|exact V1]. }
+    split; [reflexivity|].
+    split; [change (w_log s1') with (w_log s1); destruct D1 as (_ & -> & _); reflexivity|].
+    split; [change (w_pool s1') with (w_pool s1); apply R1|].
+    split; [exact F1|].
+    split.
+    { change (lk_mask (w_lock s1')) with 0%N. symmetry.
+      unfold is_locked, lock_is_locked, mk_is_zero in Hunl. apply negb_false_iff in Hunl. apply N.eqb_eq in Hunl. exact Hunl. }
+    exists lb, l'. split; [reflexivity|exact LU].
 Qed.
 
 (* ------------------------------------------------------------------ *)
@@ -2296,7 +2325,7 @@ Corollary exchange_batch_by_filter : forall s fi f tabs add rem vals,
       (forall e, live s e = false -> live s' e = false) /\
       (exists es, w_log s' = w_log s ++ map (fun e => [101%Z; Zn (fst e); Z.of_N (snd e)]) es /\ NoDup es /\
          forall e, In e es <-> (live s e = true /\ bo_ent_matches s f e))
-  | Err _ s' => St s' /\ content_same s s' /\ is_locked s' = true
+  | Err _ s' => St s' /\ content_same s s' /\ is_locked s' = false
   end.
 Proof.
   intros s fi f tabs add rem vals HSt Hunl Hlock Hnn Hreg Hor Hoa Hvals Hf Hc TL Hgbt.
@@ -2383,21 +2412,21 @@ Proof. vm_compute. auto. Qed.
 
 (** (b) The hypothesis that [vals] only names added components: a value for a component the
         destination table lacks makes the callback of the FIRST moved entity panic (nil pointer),
-        after its table has already been moved; the world stays locked. *)
+        after its table has already been moved; the deferred unlock leaves the world unlocked. *)
 Example exchange_batch_vals_outside_fails :
   match w_exchange_batch 0 [] [2] [0; 1] [] [(1, 5%Z)] bo_world with
   | Ok _ _ => None
   | Err er s' => Some (er, is_locked s', val bo_world (2, 0%N) 0, val s' (2, 0%N) 0, val s' (2, 0%N) 2)
-  end = Some (ENil, true, Some 0%Z, None, Some 0%Z).
+  end = Some (ENil, false, Some 0%Z, None, Some 0%Z).
 Proof. vm_compute. reflexivity. Qed.
 
 (** (c) The failing branch of [exchange_batch_spec]: adding a component the selected table already
-        has fails with nothing moved and the lock bit still taken. *)
+        has fails with nothing moved; the deferred unlock has released the lock bit. *)
 Example exchange_batch_not_ready_fails :
   match w_exchange_batch 0 [] [1] [] [] [] bo_world with
   | Ok _ _ => None
   | Err er s' => Some (er, is_locked s', map (fun c => val s' (2, 0%N) c) [0; 1; 2])
-  end = Some (EHasComp, true, [Some 0%Z; Some 7%Z; None]).
+  end = Some (EHasComp, false, [Some 0%Z; Some 7%Z; None]).
 Proof. vm_compute. reflexivity. Qed.
 
 (** (d) Non-vacuity of [batch_selection_cached]: [bo_world] after registering filter 0. *)
@@ -2500,7 +2529,7 @@ Corollary exchange_batch_spec_partial : forall s fi f add rem vals,
       (forall e, live s e = false -> live s' e = false) /\
       (exists es, w_log s' = w_log s ++ map (fun e => [101%Z; Zn (fst e); Z.of_N (snd e)]) es /\ NoDup es /\
          forall e, In e es <-> (live s e = true /\ bo_ent_matches s f e))
-  | Err _ s' => St s' /\ content_same s s' /\ is_locked s' = true
+  | Err _ s' => St s' /\ content_same s s' /\ is_locked s' = false
   end.
 Proof.
   intros s fi f add rem vals HSt Hunl Hlock Hnn Hreg Hor Hoa Hvals Hf Hc HT TL.
